@@ -53,6 +53,9 @@ pub enum FdEv {
     /// External catch-up call for the member (a strictly higher max version each time, so that it
     /// is applied): not a heartbeat observation. C10: on the observed node; C11: on the twin only.
     CatchUp { dt: Dt },
+    /// A delta about the member that forces a reset of the observer's copy (its watermark jumps):
+    /// delivered to both observers. Key-value replication must not disturb heartbeat bookkeeping.
+    ResetCopy { dt: Dt },
 }
 
 #[derive(Clone, Debug, Serialize, Deserialize)]
@@ -156,6 +159,7 @@ pub fn exec_fd(case: &FdCase, tally: &mut Tally, prop: &str) -> Result<(), Failu
         let mut stale_since_eval = false;
         let mut accepted_intervals = 0usize;
         let mut catchups = 0u64;
+        let mut resets = 0u64;
         let t_ns = cfg.deadline_ns();
         for (step, ev) in case.events.iter().enumerate() {
             match *ev {
@@ -217,6 +221,24 @@ pub fn exec_fd(case: &FdCase, tally: &mut Tally, prop: &str) -> Result<(), Failu
                     }
                     stale_since_eval = true;
                     tally.label("catch_up_call");
+                }
+                FdEv::ResetCopy { dt } => {
+                    let d = dt_ns(dt, cfg, now, fresh_times.last().copied());
+                    advance_ns(d).await;
+                    now += d as u128;
+                    if hb >= 1 {
+                        resets += 1;
+                        let ops = vec![WOp::Node { id: member(), last_gc: resets * 10, from_version: 0 }, WOp::SetMax(resets * 10)];
+                        let (bytes, _) = encode_msg(&WMsg::Ack { ops }, Blocking::Canonical);
+                        let r = guard(|| {
+                            main.verif_process_message(real_decode(&bytes).expect("ack decodes").0);
+                            twin.verif_process_message(real_decode(&bytes).expect("ack decodes").0);
+                        });
+                        if let Err(p) = r {
+                            return vio(&format!("{prop}/{}", p.signature()), p.describe());
+                        }
+                        tally.label("copy_reset");
+                    }
                 }
                 FdEv::Eval { dt } => {
                     let d = dt_ns(dt, cfg, now, fresh_times.last().copied());
@@ -327,9 +349,48 @@ pub struct AccCase {
     /// which an evaluation declares the member dead; the steady schedule then resumes.
     #[serde(default)]
     pub outages: Vec<u16>,
+    /// Exactly tight case with exact binary arithmetic: every gap equals a = initial_interval
+    /// (a dyadic number of seconds), b = k * a = max_interval, phi_threshold = k exactly, and an
+    /// evaluation falls exactly b after the last heartbeat (lost rounds). (a selector, k)
+    #[serde(default)]
+    pub exact_tight: Option<(u8, u8)>,
+}
+
+fn exec_exact_tight(case: &AccCase, a_sel: u8, k: u8, tally: &mut Tally) -> Result<(), Failure> {
+    with_paused_runtime(async {
+        let a_ns: u64 = [250_000_000u64, 500_000_000, 1_000_000_000, 1_500_000_000, 2_000_000_000][a_sel as usize % 5];
+        let k = (k % 4 + 1) as u64;
+        let b_ns = a_ns * k;
+        let cfg = FdCfgNs { phi: k as f64, window: case.window, max_interval_ns: b_ns, initial_interval_ns: a_ns };
+        let xid = member().to_real();
+        let mut node = observer(&cfg, "obs");
+        let n = case.arrivals.len().clamp(4, 60) as u64;
+        for hb in 1..=n {
+            if hb > 1 {
+                advance_ns(a_ns).await;
+            }
+            if let Err(p) = guard(|| node.verif_process_message(digest_msg(hb, false))) {
+                return vio(&format!("C11/{}", p.signature()), p.describe());
+            }
+        }
+        // k - 1 rounds are lost: the evaluation falls exactly b after the last heartbeat
+        advance_ns(b_ns).await;
+        if let Err(p) = guard(|| node.verif_update_nodes_liveness()) {
+            return vio(&format!("C11/{}", p.signature()), p.describe());
+        }
+        if !classify(&node, &xid).0 {
+            return vio("C11/steady-member-flagged", format!("every gap is a = initial_interval = {a_ns} ns, b = max_interval = {b_ns} ns, phi_threshold = b/a = {k} exactly: the member is reported dead exactly b after heartbeat #{n} (all quantities are exact in binary floating point)"));
+        }
+        tally.nontrivial(str_hash(&format!("exact {a_sel} {k} {} {}", case.window, n)));
+        tally.label("exactly_tight_threshold");
+        Ok(())
+    })
 }
 
 pub fn exec_accuracy(case: &AccCase, tally: &mut Tally) -> Result<(), Failure> {
+    if let Some((a_sel, k)) = case.exact_tight {
+        return exec_exact_tight(case, a_sel, k, tally);
+    }
     with_paused_runtime(async {
         let b = ((case.max_interval_ns as u128 * case.b_frac.max(1) as u128) / 65_535).max(1) as u64;
         let a = ((b as u128 * case.a_frac.max(1) as u128) / 65_535).max(1) as u64;
@@ -451,7 +512,8 @@ fn event_strategy(with_stale: bool) -> BoxedStrategy<FdEv> {
     if with_stale {
         let stale = (prop_oneof![3 => dt_strategy(), 1 => (-1i8..=1).prop_map(Dt::ToDeadline)], 0u8..5).prop_map(|(dt, back)| FdEv::Stale { dt, back }).boxed();
         let catchup = prop_oneof![3 => dt_strategy(), 1 => (-1i8..=1).prop_map(Dt::ToDeadline)].prop_map(|dt| FdEv::CatchUp { dt }).boxed();
-        prop_oneof![12 => fresh, 8 => stale, 8 => eval, 1 => catchup].boxed()
+        let reset = dt_strategy().prop_map(|dt| FdEv::ResetCopy { dt }).boxed();
+        prop_oneof![12 => fresh, 8 => stale, 8 => eval, 1 => catchup, 2 => reset].boxed()
     } else {
         prop_oneof![7 => fresh, 3 => eval].boxed()
     }
@@ -471,8 +533,9 @@ pub fn acc_strategy(max_arrivals: usize) -> impl Strategy<Value = AccCase> {
         prop_oneof![2 => 0u32..1_000, 2 => 0u32..50_000_000, 1 => 50_000_000u32..1_000_000_000],
         proptest::collection::vec((prop_oneof![4 => any::<u16>(), 1 => Just(65_535u16), 1 => Just(0u16)], proptest::option::weighted(0.7, prop_oneof![4 => any::<u16>(), 1 => Just(65_535u16)])), 4..=max_arrivals),
         prop_oneof![1 => Just(vec![]), 1 => proptest::collection::vec(any::<u16>(), 1..3)],
+        proptest::option::weighted(0.05, (0u8..5, 0u8..4)),
     )
-        .prop_map(|(window, max_interval_ns, initial_interval_ns, a_frac, b_frac, margin_ppb, arrivals, outages)| AccCase { window, max_interval_ns, initial_interval_ns, a_frac, b_frac, margin_ppb, arrivals, outages })
+        .prop_map(|(window, max_interval_ns, initial_interval_ns, a_frac, b_frac, margin_ppb, arrivals, outages, exact_tight)| AccCase { window, max_interval_ns, initial_interval_ns, a_frac, b_frac, margin_ppb, arrivals, outages, exact_tight })
 }
 
 pub fn run_c10(ctx: &Ctx, report: &mut Report) {
